@@ -7,6 +7,7 @@ From SU.Model Require Import Quantizer.
 From SU.Spec Require Import QuantSpec.
 From SU.Proofs Require Import QuantProofs.
 From SU.Proofs Require Import QuantExtraProofs.
+From SU.Proofs Require Import QuantKillers.
 Open Scope Z_scope.
 
 (** (histories are well-formed when every scale note is a u8, as the Rust API enforces)
@@ -50,8 +51,60 @@ Theorem C07_ex_forbid_keeps_last :
   q_allowed (quant_forbid q ns) = 2048 /\ Z.shiftl 1 (note_new (last ns 0)) = 2048.
 Proof. exact ex_forbid_keeps_last. Qed.
 
+(** what allow(ns) does to the scale, note by note: a pitch class is allowed afterwards iff it was before or is mentioned (numbers above 11 count as 11) *)
+Theorem C07_allow_bits_spec : forall ns a n,
+  u8_notes ns -> 0 <= n ->
+  bit_allowed (allow_bits a ns) n = bit_allowed a n || mentions ns n.
+Proof. exact allow_bits_spec. Qed.
+
+(** what forbid(ns) does (before the last-note rule): allowed afterwards iff it was before and is not mentioned *)
+Theorem C07_forbid_bits_spec : forall ns a n,
+  u8_notes ns -> 0 <= n <= 11 ->
+  bit_allowed (forbid_bits a ns) n = bit_allowed a n && negb (mentions ns n).
+Proof. exact forbid_bits_spec. Qed.
+
+(** the same on reachable quantizers *)
+Theorem C07_allow_mask : forall ops ns n, wf_ops ops -> u8_notes ns -> 0 <= n <= 11 ->
+  let q := qrun ops in
+  bit_allowed (q_allowed (quant_step q (QAllow ns))) n
+  = bit_allowed (q_allowed q) n || mentions ns n.
+Proof. exact KQ_allow_mask. Qed.
+
+(** the same on reachable quantizers, when the call does not empty the scale *)
+Theorem C07_forbid_mask : forall ops ns n, wf_ops ops -> u8_notes ns -> 0 <= n <= 11 ->
+  let q := qrun ops in
+  forbid_bits (q_allowed q) ns <> 0 ->
+  bit_allowed (q_allowed (quant_step q (QForbid ns))) n
+  = bit_allowed (q_allowed q) n && negb (mentions ns n).
+Proof. exact KQ_forbid_mask. Qed.
+
+(** non-vacuity: multi-note calls *)
+Theorem C07_ex_masks :
+  q_allowed (qrun [QForbid [0; 1; 2; 3; 4; 5; 6; 7; 8; 9; 10; 11]; QAllow [0; 4; 200]]) = 2065 /\
+  q_allowed (qrun [QForbid [1; 3; 250]]) = 2037 /\
+  q_allowed (qrun [QForbid [1; 3]; QAllow [3; 1]]) = 4095.
+Proof. exact KQ_ex_masks. Qed.
+
+(** the panic guard is exactly the Rust panic site: `notes[len-1..]` of an empty slice when the scale would become empty *)
+Theorem C07_forbid_panic_site : forall q ns,
+  quant_forbid_ok q ns = false <-> (forbid_bits (q_allowed q) ns = 0 /\ ns = []).
+Proof. exact KQ_forbid_panic_site. Qed.
+
+(** no other operation can panic *)
+Theorem C07_step_panic_site : forall q o,
+  quant_step_ok q o = false <->
+  exists ns, o = QForbid ns /\ forbid_bits (q_allowed q) ns = 0 /\ ns = [].
+Proof. exact KQ_step_panic_site. Qed.
+
 Print Assumptions C07_mask_invariant.
 Print Assumptions C07_note_allowed.
 Print Assumptions C07_forbid_keeps_last.
 Print Assumptions C07_no_panic.
 Print Assumptions C07_ex_forbid_keeps_last.
+Print Assumptions C07_allow_bits_spec.
+Print Assumptions C07_forbid_bits_spec.
+Print Assumptions C07_allow_mask.
+Print Assumptions C07_forbid_mask.
+Print Assumptions C07_ex_masks.
+Print Assumptions C07_forbid_panic_site.
+Print Assumptions C07_step_panic_site.
